@@ -7,10 +7,14 @@ cd /verif
 names="$@"; [ -z "$names" ] && names=$(ls seeded)
 for name in $names; do
   d=/verif/seeded/$name
+  pf=$d/patch.diff; [ -f $d/patch.current.diff ] && pf=$d/patch.current.diff   # same change, rebased onto later fixes
   prop=$(python3 -c "import json;print(json.load(open('$d/meta.json'))['property'])" 2>/dev/null || echo ${name:0:3})
   if [ -n "$(git -C /repo status --short | grep -v '^??')" ]; then echo "/repo not clean"; exit 2; fi
-  if ! git -C /repo apply $d/patch.diff 2>/dev/null; then
-    if ! git -C /repo apply --3way $d/patch.diff 2>/dev/null; then echo "$name: patch does not apply to the current tree"; git -C /repo checkout -- . ; git -C /repo reset -q; continue; fi
+  if ! git -C /repo apply $pf 2>/dev/null; then
+    # context moved by later fixes: three-way merge against the blobs the patch names
+    if ! git -C /repo apply --3way $pf 2>/dev/null; then
+      echo "$name: patch does not apply to the current tree"; git -C /repo reset -q --hard HEAD; continue
+    fi
     git -C /repo reset -q
   fi
   suite=$(cd /repo && go build ./... 2>&1 && go test -vet=off -count=1 ./... 2>&1 | grep -v "no test files" | grep -c "^ok")
